@@ -542,10 +542,19 @@ func c03prop(ev *evid.Rec) func(rt *rapid.T) {
 					if !lv.in || lv.c.EOF() || lv.h.Mode == "transfer" {
 						continue
 					}
-					ir := lv.c.Request(hlref.TranInviteNewChat, fld(hlref.FUserID, hlref.BE16(1)))
-					cid, ok := ir.Get(hlref.FChatID)
-					if !okReply(ir) || !ok || len(cid) != 4 {
-						break // (not granted, or the reply of an earlier mutated request that used the same transaction id)
+					// (sent under a transaction id of its own: the mutated requests of this connection carry drawn ids, small ones
+					// more often than not, and a late reply to one of them must not be taken for the reply to this request)
+					const baitID = 0x6b61746f
+					lv.c.TakeInbox()
+					lv.c.Send(hlref.Tran{Type: hlref.TranInviteNewChat, ID: baitID, Fields: []hlref.Field{fld(hlref.FUserID, hlref.BE16(1))}}.Encode())
+					var cid []byte
+					for _, tr := range lv.c.TakeInbox() {
+						if d, ok := tr.Get(hlref.FChatID); tr.IsReply == 1 && tr.ID == baitID && tr.Err == 0 && ok && len(d) == 4 {
+							cid = d
+						}
+					}
+					if cid == nil {
+						break // not granted
 					}
 					lv.c.Request(hlref.TranLeaveChat, fld(hlref.FChatID, cid))
 					settle(time.Second)
